@@ -966,6 +966,9 @@ func _expandFont(_ string, _ pr.Shortand, tokens []Token) ([]namedTokens, error)
 	// can come in any order and are all optional.
 	hasBroken := false
 	for i := 0; i < 4; i++ {
+		if len(tokens) == 0 {
+			return nil, ErrInvalidValue
+		}
 		token, tokens = tokens[len(tokens)-1], tokens[:len(tokens)-1]
 
 		kw := getKeyword(token)
@@ -996,6 +999,9 @@ func _expandFont(_ string, _ pr.Shortand, tokens []Token) ([]namedTokens, error)
 		}
 	}
 	if !hasBroken {
+		if len(tokens) == 0 {
+			return nil, ErrInvalidValue
+		}
 		token, tokens = tokens[len(tokens)-1], tokens[:len(tokens)-1]
 	}
 
@@ -1019,6 +1025,9 @@ func _expandFont(_ string, _ pr.Shortand, tokens []Token) ([]namedTokens, error)
 	token = tokens[len(tokens)-1]
 	tokens = tokens[:len(tokens)-1]
 	if lit, ok := token.(pa.Literal); ok && lit.Value == "/" {
+		if len(tokens) == 0 {
+			return nil, ErrInvalidValue
+		}
 		token = tokens[len(tokens)-1]
 		tokens = tokens[:len(tokens)-1]
 		if lineHeight([]Token{token}, "") == nil {
